@@ -548,7 +548,12 @@ def finish_site(toks, fn, fns, rel, entry, src, chain_methods, end_i, via, files
     if name == "collect":
         if not target:
             target = vty
-        kind = "collect_vec" if target.startswith("Vec<") or target == "Vec" else "collect_other"
+        if target.startswith("Vec<") or target == "Vec":
+            kind = "collect_vec"
+        elif re.match(r"^Result<Vec(<|,)", target):
+            kind = "collect_result_vec"      # collect::<Result<Vec<_>, E>>() of Result items
+        else:
+            kind = "collect_other"
         rec["sink"] = (kind, target)
     else:
         rec["sink"] = ("other", name)
@@ -656,6 +661,8 @@ def render(info):
     def sink(s):
         if s[0] == "collect_vec":
             return "SinkCollectVec"
+        if s[0] == "collect_result_vec":
+            return "SinkCollectResultVec"
         if s[0] == "collect_other":
             return "(SinkCollectOther %s)" % q(s[1])
         if s[0] == "none":
